@@ -240,6 +240,29 @@ fn res_cases() -> Vec<ResCase> {
     for limit in [64usize, 256, 1024, 4096] {
         v.push(ResCase { name: "memory", module: m.clone(), cfg: CfgLite { mem_limit: limit, max_instr: 10_000_000, ..Default::default() }, kind: "OutOfMemory", allowed: vec![loc(0, &[1, 1, 0])], chain_allowed: vec![] });
     }
+    // out of memory raised by every other allocating card: the only allocating card of the loop body
+    let one = |body: C, prelude: Vec<C>| -> Module {
+        let mut cards = prelude;
+        cards.push(C::Repeat { n: b(int(1_000_000)), i: Some("i".into()), body: b(body) });
+        module(vec![("main", func(&[], cards)), ("f", func(&[], vec![C::Return(b(int(1)))]))])
+    };
+    let allocators: Vec<(&'static str, Module, Vec<u32>, &'static str)> = vec![
+        // (name, program, path of the card that has to be named, error kind)
+        ("oom-set-property", one(C::SetProperty(b(rv("i")), b(rv("t")), b(rv("i"))), vec![sv("t", C::CreateTable)]), vec![1, 1], "OutOfMemory"),
+        ("oom-append", one(C::Append(b(rv("i")), b(rv("t"))), vec![sv("t", C::CreateTable)]), vec![1, 1], "OutOfMemory"),
+        ("oom-create-table", one(sg("g", C::CreateTable), vec![sv("t", int(0))]), vec![1, 1, 0], "OutOfMemory"),
+        ("oom-closure", one(sg("g", C::Closure(vec![], vec![C::Return(b(int(1)))])), vec![sv("t", int(0))]), vec![1, 1, 0], "OutOfMemory"),
+        ("oom-function", one(sg("g", C::Function("f".into())), vec![sv("t", int(0))]), vec![1, 1, 0], "OutOfMemory"),
+        ("oom-native-function", one(sg("g", C::NativeFunction("echo".into())), vec![sv("t", int(0))]), vec![1, 1, 0], "OutOfMemory"),
+        ("oom-get-row", one(sg("g", C::Get(b(rv("t")), b(int(0)))), vec![sv("t", C::CreateTable), C::Append(b(int(1)), b(rv("t")))]), vec![2, 1, 0], "OutOfMemory"),
+        ("oom-host-alloc", one(sg("g", native("pack2", vec![int(1), int(2)])), vec![sv("t", int(0))]), vec![1, 1, 0], "TaskFailure(pack2:OutOfMemory)"),
+    ];
+    for (name, m, path, kind) in allocators {
+        // (limits large enough for the table the prelude creates: the loop card must be the one that fails)
+        for limit in [1000usize, 2000, 5000, 20000] {
+            v.push(ResCase { name, module: m.clone(), cfg: CfgLite { mem_limit: limit, max_instr: 100_000_000, ..Default::default() }, kind, allowed: vec![loc(0, &path)], chain_allowed: vec![] });
+        }
+    }
     // timeout: some card of the loop (or of the callee it calls) is reported
     let m = module(vec![("main", func(&[], vec![sv("x", int(0)), C::While(b(int(1)), b(sv("x", add(rv("x"), int(1))))), sg("never", int(1))]))]);
     for budget in [10u64, 11, 12, 13, 14, 15, 50, 51] {
@@ -296,7 +319,7 @@ impl Check for C15 {
     fn info(&self, tier: Tier) -> CheckInfo {
         let fams = families(tier);
         CheckInfo {
-            rule: "F-errinject: 5 base programs (calls at depth 0-2 with locals and arguments; three nested modules; closures and dynamic calls of script / native values with computed arguments; Repeat / ForEach / While / IfElse; table cards, dotted names and natives) x every value-producing card position x 5 injected failing expressions (missing native, wrong-type table operand, non-function callee, failing host function, PopTable of a string): trace[0] must be the location the reference interpreter reports for the card that raised the error, trace[1..] the call cards of the active chain innermost first with their namespaces, optionally followed by one entry for the program entry. F-compile-errloc: the same positions x 4 cards the compiler must reject (unknown function in Call / Function / inside a dynamic call, empty variable name): the error location must be that card. Resource errors with constructively known location: call-depth exhaustion (4 call-stack sizes), value-stack exhaustion (every stack size for 3 expression depths: the exact literal), OutOfMemory (4 limits: the only allocating card), Timeout (14 budgets: a card of the spinning loop, chain = the call card). 'states' = distinct (error location, chain) per chunk".into(),
+            rule: "F-errinject: 5 base programs (calls at depth 0-2 with locals and arguments; three nested modules; closures and dynamic calls of script / native values with computed arguments; Repeat / ForEach / While / IfElse; table cards, dotted names and natives) x every value-producing card position x 5 injected failing expressions (missing native, wrong-type table operand, non-function callee, failing host function, PopTable of a string): trace[0] must be the location the reference interpreter reports for the card that raised the error, trace[1..] the call cards of the active chain innermost first with their namespaces, optionally followed by one entry for the program entry. F-compile-errloc: the same positions x 4 cards the compiler must reject (unknown function in Call / Function / inside a dynamic call, empty variable name): the error location must be that card. Resource errors with constructively known location: call-depth exhaustion (4 call-stack sizes), value-stack exhaustion (every stack size for 3 expression depths: the exact literal), OutOfMemory (4 limits x 9 allocating card kinds - string literal, SetProperty growth, AppendTable growth, CreateTable, Closure, Function, NativeFunction, Get row, allocation inside a host function: the only allocating card of the loop), Timeout (14 budgets: a card of the spinning loop, chain = the call card). 'states' = distinct (error location, chain) per chunk".into(),
             bound: format!("families {:?} + {} resource cases", fams.iter().map(|f| format!("{}={}", f.name(), f.len())).collect::<Vec<_>>(), res_cases().len()),
             exhaustive: true,
             assumptions: vec!["errors raised inside library callbacks and host re-entry are excluded (frames created by run_function carry no call card)".into(), "injected cards that are not reached (dead branches) produce no error and are skipped".into()],
